@@ -317,6 +317,18 @@ func (r *lockRoles) heldFlagTestVL(f ir.Fact) (over, reads bool) {
 		}
 		return sat(0) && !sat(1), sat(1) && !sat(0), true
 	}
+	// the flag kept in an atomic.Bool: the load is the condition itself (true = held)
+	isBoolFlagLoad := func(v ssa.Value) bool {
+		addr, ok := ir.IsAtomicBoolLoad(ir.Resolve(v))
+		if !ok {
+			return false
+		}
+		_, isFlag := fieldAddrOf(addr, r.heldF)
+		return isFlag
+	}
+	if fb := f.StripNot(); isBoolFlagLoad(fb.Cond) {
+		return !fb.True, true
+	}
 	if cm, ok := f.Cmp(); ok {
 		if notHeld, _, known := cmpNotHeld(cm); known {
 			return notHeld, true
@@ -349,6 +361,10 @@ func (r *lockRoles) heldFlagTestVL(f ir.Fact) (over, reads bool) {
 	saysHeld, saysNotHeld, all := true, true, true
 	rets := ir.Returns(cal)
 	for _, ret := range rets {
+		if isBoolFlagLoad(ir.ResultValue(ret, 0)) {
+			saysNotHeld = false // `return l.held.Load()`: the predicate says "held"
+			continue
+		}
 		cm, isCmp := ir.AsCmp(ir.Resolve(ir.ResultValue(ret, 0)))
 		if !isCmp {
 			all = false
